@@ -48,6 +48,8 @@ FEATURE, RELATION, FMODEL, CTC = ("Feature",), ("Relation",), ("FeatureModel",),
 ASTT, NODE, NDATA, ASTOP, FTYPE, CARD = ("AST",), ("Node",), ("ndata",), ("astop",), ("ftype",), ("Cardinality",)
 UNKNOWN = ("?",)
 DOMAIN, RANGE = ("Domain",), ("Range",)
+METRIC, HUND, RATIO, MEANT, HALF = ("metric",), ("hund",), ("ratio",), ("mean",), ("half",)
+# a metrics entry; a float in hundredths; a ratio in ten-thousandths; statistics.mean as (sum, n); statistics.median doubled
 PFEATURE, PRELATION = ("PFeature",), ("PRelation",)   # builder mode (readers): the pure tree values, no parent pointers
 PURE = [False]
 FSET = ("fset",)          # a set of features as a value (outside the functions that share and mutate sets)
@@ -78,7 +80,8 @@ def coq_ty(t):
     simple = {"int": "Z", "bool": "bool", "str": "string", "Feature": "lfeat", "Relation": "lrel",
               "FeatureModel": "fm", "Constraint": "ctc", "AST": "node", "Node": "node", "ndata": "ndata",
               "astop": "astop", "ftype": "ftype", "any": "aval", "Attribute": "attr", "char": "ascii", "float": "string", "Domain": "domain", "Range": "range",
-              "setref": "nat", "store": "py_store", "fset": "(list lfeat)", "PFeature": "feature", "PRelation": "relation", "intstr": "string"}
+              "setref": "nat", "store": "py_store", "fset": "(list lfeat)", "PFeature": "feature", "PRelation": "relation",
+              "metric": "py_metric", "hund": "Z", "ratio": "Z", "mean": "(Z * Z)", "half": "Z", "intstr": "string"}
     if k in simple:
         return simple[k]
     if k == "none":
@@ -273,7 +276,7 @@ def parse_ann(a, ctx):
     if isinstance(a, ast.Constant) and a.value is None:
         return NONE
     if isinstance(a, ast.Name):
-        m = {"int": INT, "bool": BOOL, "str": STR, "float": INT, "Feature": FEATURE, "Relation": RELATION,
+        m = {"int": INT, "bool": BOOL, "str": STR, "float": HUND, "Feature": FEATURE, "Relation": RELATION,
              "FeatureModel": FMODEL, "Constraint": CTC, "AST": ASTT, "Node": NODE, "Any": ANY,
              "Attribute": ATTRIBUTE, "VariabilityModel": FMODEL, "Domain": DOMAIN, "Range": RANGE}      # execute(model) casts to FeatureModel
         if a.id in OBJECTS:
@@ -379,7 +382,7 @@ class Translator:
             return v
         if v.ty == UNKNOWN:
             return Val(v.code, ty, v.eff)
-        if {v.ty, ty} == {ASTT, NODE}:
+        if {v.ty, ty} == {ASTT, NODE} or {v.ty, ty} == {HUND, INT}:
             return Val(v.code, ty, v.eff)
         if ty[0] == "opt":
             if v.ty == NONE:
@@ -473,7 +476,7 @@ class Translator:
         if isinstance(v, str):
             return Val(coq_str(v), STR)
         if isinstance(v, float) and v == 0.0:
-            return Val("0%Z", INT)       # `return 0.0`: zero in the units of py_round_div
+            return Val("0%Z", HUND)      # `return 0.0`: zero in the units of py_round_div
         fail(e, "unsupported constant")
 
     def e_Name(self, e, env):
@@ -763,6 +766,14 @@ class Translator:
         if a.ty == ANY and l.ty == List(STR):
             return self.lift([a, l], lambda c: Val(
                 f"(match {c[0]} with VStr s => existsb (String.eqb s) {c[1]} | _ => false end)", BOOL))
+        if a.ty == NDATA and l.ty[0] == "dict" and l.ty[1] == STR:
+            return self.lift([a, l], lambda c: Val(
+                f"(match {c[0]} with DStr s => existsb (fun p => String.eqb (fst p) s) {c[1]} | _ => false end)", BOOL))
+        if a.ty == STR and l.ty[0] == "dict" and l.ty[1] == STR:
+            return self.lift([a, l], lambda c: Val(f"(existsb (fun p => String.eqb (fst p) {c[0]}) {c[1]})", BOOL))
+        if a.ty == STR and l.ty == List(NDATA):
+            return self.lift([a, l], lambda c: Val(
+                f"(existsb (fun d => match d with DStr s => String.eqb s {c[0]} | _ => false end) {c[1]})", BOOL))
         if a.ty == STR and l.ty == ANY:
             return self.lift([a, l], lambda c: Val(f"(aval_has {c[1]} {c[0]})", BOOL))
         if a.ty == CHAR and l.ty == STR:
@@ -820,6 +831,43 @@ class Translator:
         if any(p.eff for p in parts):
             fail(e, "chained comparison with effects")
         return Val("(" + " && ".join(p.code for p in parts) + ")", BOOL)
+
+    def coll_len(self, a, env, ctx):
+        """len() of a collection given to get_ratio: a list, the keys of a dict, the listing of another metric"""
+        v = self.obj(self.tr(a, env))
+        if v.ty[0] in ("list", "dict"):
+            return self.lift([v], lambda c: Val(f"(py_len {c[0]})", INT))
+        fail(ctx, f"get_ratio over {v.ty}")
+
+    def construct_result(self, e, env):
+        """Metrics.construct_result(name=…, doc=…, result=…, size=…, ratio=…, parent=…, level=…) of flamapy.core: the
+        entry as a record (the documentation string is not represented)"""
+        kw = {k.arg: k.value for k in e.keywords}
+        if not set(kw) <= {"name", "doc", "result", "size", "ratio", "parent", "level"} or not {"name", "result"} <= set(kw):
+            fail(e, "construct_result with unexpected arguments")
+        if "doc" in kw and not (isinstance(kw["doc"], ast.Attribute) and kw["doc"].attr == "__doc__"):
+            fail(e, "doc= other than a docstring")
+        nm = self.coerce(self.tr(kw["name"], env), STR, e)
+        r = self.tr(kw["result"], env)
+        wrap = {List(STR): "(PMNames {0})", STR: "(PMStr {0})", INT: "(PMInt {0})", HUND: "(PMHund {0})",
+                List(NDATA): "(PMNames (map data_str {0}))", List(UNKNOWN): "(PMNames {0})"}
+        rt = r.ty
+        if rt[0] == "dict" and rt[2] == NONE:          # list(dict.fromkeys(...)) handled by list(); a bare dict is not a listing
+            fail(e, "result= a dict")
+        if rt not in wrap:
+            fail(e, f"result= of type {rt}")
+        rv = self.lift([r], lambda c: Val(wrap[rt].format(c[0]), ("mres",)))
+
+        def opt(key, ty):
+            if key not in kw:
+                return Val("None", NONE)
+            v = self.coerce(self.tr(kw[key], env), ty, e)
+            return self.lift([v], lambda c: Val(f"(Some {c[0]})", Opt(ty)))
+        size, ratio, parent = opt("size", INT), opt("ratio", RATIO), opt("parent", STR)
+        level = self.coerce(self.tr(kw["level"], env), INT, e) if "level" in kw else Val("0%Z", INT)
+        return self.lift([nm, rv, size, ratio, parent, level], lambda c: Val(
+            f"{{| pm_name := {c[0]}; pm_result := {c[1]}; pm_size := {c[2]}; pm_ratio := {c[3]}; pm_parent := {c[4]}; "
+            f"pm_level := {c[5]} |}}", METRIC))
 
     def pointer(self, e, env):
         """an expression used only as a parent pointer (builder mode): evaluated for its effects, not a value use"""
@@ -1006,7 +1054,10 @@ class Translator:
 
     def e_Call(self, e, env):
         fn = e.func
-        if e.keywords and not (isinstance(fn, ast.Name) and (fn.id == "sorted" or (
+        if isinstance(fn, ast.Attribute) and isinstance(fn.value, ast.Name) and fn.value.id == "self" \
+                and fn.attr == "construct_result":
+            return self.construct_result(e, env)
+        if e.keywords and not (isinstance(fn, ast.Name) and (fn.id in ("sorted", "min") or (
                 PURE[0] and fn.id in ("Feature", "Relation", "Attribute", "FeatureModel")))):
             fail(e, "keyword arguments")
         if isinstance(fn, ast.Name):
@@ -1018,6 +1069,26 @@ class Translator:
                 # a combination (a tuple in Python) is a list here
                 self.cur.intrinsic_eff = True
                 return self.lift([l, k], lambda c: Val(f"(py_combinations {c[0]} {c[1]})", List(l.ty), True))
+            if isinstance(fn.value, ast.Name) and fn.value.id == "statistics" and fn.attr in ("mean", "median") and len(e.args) == 1:
+                l = self.arg_list(e.args[0], env, INT)
+                self.cur.intrinsic_eff = True
+                t = MEANT if fn.attr == "mean" else HALF
+                return self.lift([l], lambda c: Val(f"(py_stat_{fn.attr} {c[0]})", t, True))
+            if isinstance(fn.value, ast.Name) and fn.value.id == "dict" and fn.attr == "fromkeys" and len(e.args) == 1:
+                l = self.arg_list(e.args[0], env)
+                x, y = self.fresh("x"), self.fresh("y")
+                eq = self.eq_code(Val(x, l.ty[1]), Val(y, l.ty[1]), e) if l.ty[1] != NDATA else Val(f"(ndata_key_eqb {x} {y})", BOOL)
+                if eq.eff:
+                    fail(e, "dict.fromkeys over keys whose == can raise")
+                return self.lift([l], lambda c: Val(
+                    f"(map (fun k => (k, tt)) (py_dedup (fun {x} {y} => {eq.code}) {c[0]}))", Dict(l.ty[1], NONE)))
+            if isinstance(fn.value, ast.Name) and fn.value.id == "self" and fn.attr == "construct_result" and not e.args:
+                return self.construct_result(e, env)
+            if isinstance(fn.value, ast.Name) and fn.value.id == "self" and fn.attr == "get_ratio" and len(e.args) in (2, 3):
+                a = self.coll_len(e.args[0], env, e)
+                b = self.coll_len(e.args[1], env, e)
+                pr = self.coerce(self.tr(e.args[2], env), INT, e) if len(e.args) == 3 else Val("4%Z", INT)
+                return self.lift([a, b, pr], lambda c: Val(f"(py_get_ratio {c[0]} {c[1]} {c[2]})", RATIO))
             if isinstance(fn.value, ast.Name) and fn.value.id == "functools" and fn.attr == "reduce" and len(e.args) == 2 \
                     and isinstance(e.args[0], ast.Lambda) and len(e.args[0].args.args) == 2:
                 lam = e.args[0]
@@ -1174,6 +1245,8 @@ class Translator:
             r = self.coerce(self.tr(given["root"], env), PFEATURE, e)
             cs = self.coerce(self.tr(given["constraints"], env), List(CTC), e)
             return self.lift([r, cs], lambda c: Val(f"{{| root := {c[0]}; ctcs := {c[1]} |}}", FMODEL))
+        if name in OBJECTS and not args and not e.keywords and not CTOR_PARAMS.get(name):
+            return Val(f"py_{name}_new", ("obj", name))
         if name == "Node" and 1 <= len(args) <= 3:
             d = self.tr(args[0], env)
             if d.ty == ASTOP:
@@ -1316,7 +1389,24 @@ class Translator:
             b = self.coerce(self.tr(args[0].right, env), INT, e)
             n = self.coerce(self.tr(args[1], env), INT, e)
             self.cur.intrinsic_eff = True
-            return self.lift([a, b, n], lambda c: Val(f"(py_round_div {c[0]} {c[1]} {c[2]})", INT, True))
+            return self.lift([a, b, n], lambda c: Val(f"(py_round_div {c[0]} {c[1]} {c[2]})", HUND, True))
+        if name == "round" and len(args) == 2 and isinstance(args[1], ast.Constant) and args[1].value == 2:
+            v = self.tr(args[0], env)
+            if v.ty == MEANT:
+                return self.lift([v], lambda c: Val(f"(py_round_mean {c[0]})", HUND))
+            if v.ty == HALF:
+                return self.lift([v], lambda c: Val(f"(50 * {c[0]})%Z", HUND))
+            fail(e, f"round(x, 2) of {v.ty}")
+        if name == "min" and len(args) == 1:
+            v = self.arg_list(args[0], env, INT)
+            kw = {k.arg: k.value for k in e.keywords}
+            if set(kw) == {"default"}:
+                d = self.coerce(self.tr(kw["default"], env), INT, e)
+                return self.lift([v, d], lambda c: Val(f"(py_min_default {c[0]} {c[1]})", INT))
+            if kw:
+                fail(e, "min() with keywords other than default")
+            self.cur.intrinsic_eff = True
+            return self.lift([v], lambda c: Val(f"(py_min {c[0]})", INT, True))
         if name == "isinstance" and len(args) == 2:
             v = self.tr(args[0], env)
             t = args[1]
@@ -1379,6 +1469,14 @@ class Translator:
                 return self.lift([k], lambda c: Val(f"(match {fn} {c[0]} with Some v => Ok v | None => Err KeyError end)", STR, True))
             fail(e, f"table lookup with a key of type {k.ty}")
         v = self.obj(self.tr(e.value, env))
+        if v.ty == METRIC and isinstance(e.slice, ast.Constant) and e.slice.value == "result":
+            return self.lift([v], lambda c: Val(f"(py_metric_names {c[0]})", List(STR)))
+        if v.ty[0] == "dict" and not isinstance(e.slice, ast.Slice):
+            kk = self.coerce(self.tr(e.slice, env), v.ty[1], e)
+            if v.ty[1] != STR:
+                fail(e, "dict lookup with keys other than str")
+            self.cur.intrinsic_eff = True
+            return self.lift([v, kk], lambda c: Val(f"(py_dict_get String.eqb {c[0]} {c[1]})", v.ty[2], True))
         if v.ty == NDATA and isinstance(e.slice, ast.Slice):
             v = self.coerce(v, STR, e)
         if v.ty == STR and isinstance(e.slice, ast.Slice) and e.slice.step is None and e.slice.lower is None \
@@ -2137,6 +2235,8 @@ def collect(unit):
             for st in init.body:
                 if isinstance(st, ast.Expr) and isinstance(st.value, ast.Constant):
                     continue
+                if isinstance(st, ast.Expr) and ast.unparse(st.value) == "super().__init__()":
+                    continue          # the fields of the core base class this unit needs are listed under "extra_fields"
                 tg = st.target if isinstance(st, ast.AnnAssign) else (st.targets[0] if isinstance(st, ast.Assign) and len(st.targets) == 1 else None)
                 if not (isinstance(tg, ast.Attribute) and isinstance(tg.value, ast.Name) and tg.value.id == "self"):
                     fail(st, "constructor statement other than self.<field> = <value>")
@@ -2146,10 +2246,39 @@ def collect(unit):
                     ty = INT
                 elif isinstance(st.value, ast.Name) and st.value.id in dict(ctor_params):
                     ty = dict(ctor_params)[st.value.id]
+                elif isinstance(st.value, ast.Constant) and isinstance(st.value.value, str):
+                    ty = STR
                 else:
                     fail(st, "field without a type annotation")
                 fields.append((tg.attr, ty, st.value))
+            for fn_, ft_ in unit.get("extra_fields", {}).get(cls, []):
+                fields.append((fn_, ft_, ast.Constant(value=None)))
             OBJECTS[cls] = fields
+            if methods == "ALL_METRICS":
+                # every method decorated with @metric_method, the helpers they use, and the first part of
+                # calculate_metamodel_metrics (up to the reflection idiom, which is replaced by a dispatch table below)
+                decorated = sorted(n for n, fn_ in ms.items()
+                                   if [ast.unparse(d) for d in fn_.decorator_list] == ["metric_method"])
+                calc = ms.get("calculate_metamodel_metrics")
+                if calc is None:
+                    raise Fail(f"{path}: {cls}.calculate_metamodel_metrics not found")
+                cut = next((i for i, st in enumerate(calc.body) if isinstance(st, ast.Assign) and len(st.targets) == 1
+                            and isinstance(st.targets[0], ast.Name) and st.targets[0].id == "metric_methods"), None)
+                expected = [
+                    "metric_methods = [getattr(self, method_name) for method_name in dir(self) if callable(getattr(self, method_name)) "
+                    "and hasattr(getattr(self, method_name), '_is_metric_method')]",
+                    "if self.filter is not None:\n    metric_methods = [method for method in metric_methods if method.__name__ in self.filter]",
+                    "return [method() for method in metric_methods]"]
+                if cut is None or [ast.unparse(st) for st in calc.body[cut:]] != expected:
+                    raise Fail(f"{path}: the reflection idiom at the end of calculate_metamodel_metrics is not the known one")
+                prep = ast.FunctionDef(name="_prepare", args=calc.args, body=calc.body[:cut] or [ast.Pass()],
+                                       decorator_list=[], returns=ast.Constant(value=None), type_comment=None)
+                ast.copy_location(prep, calc)
+                ast.fix_missing_locations(prep)
+                ms["_prepare"] = prep
+                unit["_metrics"] = {"cls": cls, "decorated": decorated}
+                methods = decorated + ["_prepare", "constraints_per_features", "_is_group_feature", "_is_grouped",
+                                       "get_feature_ancestors"]
             for m in methods:
                 if m not in ms:
                     raise Fail(f"{path}: method {cls}.{m} not found")
@@ -2160,6 +2289,8 @@ def collect(unit):
                     fi.kind = "static"
                 elif decos == ["classmethod"]:
                     fi.kind = "class"
+                elif decos == ["metric_method"]:
+                    fi.is_metric = True
                 elif decos:
                     fail(ms[m], "decorated method")
                 ms[m].decorator_list = []
@@ -2185,6 +2316,8 @@ def collect(unit):
             else:
                 f.params.append((arg.arg, OVERRIDE_PARAM.get((f.cls, f.node.name, arg.arg)) or parse_ann(arg.annotation, arg), d))
         f.ret = OVERRIDE_RET.get(key) or parse_ann(f.node.returns, f.node)
+        if getattr(f, "is_metric", False):
+            f.ret = METRIC
         if any(is_json_load_with(x) for x in f.node.body):
             f.params.append(("loaded", ANY, None))
         if key[0] is None and key[1] in unit.get("store_funcs", []):
@@ -2395,6 +2528,39 @@ def translate_unit(unit, externals):
             out.append(f"(* {src} *)\nDefinition {f.coqname} {params} : result {rty} :=\n  {body}.\n")
         else:
             out.append(f"(* {src} *)\nDefinition {f.coqname} {params} : {rty} :=\n  {body}.\n")
+    if unit.get("_metrics"):
+        cls, decorated = unit["_metrics"]["cls"], unit["_metrics"]["decorated"]
+        fis = [funcs[(cls, n)] for n in decorated]
+        prep = funcs[(cls, "_prepare")]
+        calc = FuncInfo(cls, prep.node, f"py_{cls}_calculate_metamodel_metrics")
+        bad = [g.coqname for g in fis + [prep] if g.failed]
+        if bad:
+            calc.failed = "needs " + ", ".join(bad[:5])
+            out.append(f"(* {cls}.calculate_metamodel_metrics: NOT TRANSLATED — {calc.failed} *)\n")
+        else:
+            st = f"py_{cls}_state"
+            out.append(f"(* the methods decorated with @metric_method, in the order dir() lists them *)\n"
+                       f"Definition py_{cls}_metric_methods : list string :=\n  [" + "; ".join(coq_str(n) for n in decorated) + "].\n")
+            body = "Err AttributeError"
+            for g, n in reversed(list(zip(fis, decorated))):
+                call = f"{g.coqname}{' fuel' if g.fuel else ''} self"
+                call = call if g.eff else f"Ok ({call})"
+                body = f"if String.eqb name {coq_str(n)} then {call}\n  else {body}"
+            out.append(f"(* getattr(self, name)() for a metric method *)\nDefinition py_{cls}_metric (fuel : nat) (self : {st}) "
+                       f"(name : string) : result py_metric :=\n  {body}.\n")
+            pcall = f"{prep.coqname}{' fuel' if prep.fuel else ''} self model_0"
+            pcall = pcall if prep.eff else f"Ok ({pcall})"
+            out.append(
+                f"(* {cls}.calculate_metamodel_metrics: the preparation translated above, then the reflection idiom\n"
+                f"   [getattr(self, n) for n in dir(self) if … _is_metric_method], the filter, and the calls *)\n"
+                f"Definition py_{cls}_calculate_metamodel_metrics (fuel : nat) (self : {st}) (model_0 : fm) : result (list py_metric) :=\n"
+                f"  bind ({pcall}) (fun self1 =>\n"
+                f"    let methods := match {cls}_filter self1 with\n"
+                f"                   | None => py_{cls}_metric_methods\n"
+                f"                   | Some fl => filter (fun n => existsb (fun y => String.eqb y n) fl) py_{cls}_metric_methods\n"
+                f"                   end in\n"
+                f"    mapM (py_{cls}_metric fuel self1) methods).\n")
+        funcs[(cls, "calculate_metamodel_metrics")] = calc
     return funcs, "\n".join(out)
 
 
@@ -2509,6 +2675,10 @@ UNITS = [
                ("transformations/json_reader.py", {}, ["parse_constraints", "parse_ast_constraint", "parse_tree",
                                                        "parse_attributes", "parse_relations"])],
      "objects": {"transformations/json_reader.py": {"JSONReader": ["parse_json", "transform"]}}},
+    {"name": "metrics", "imports": " Gen.Src_fm Gen.Src_ops Gen.Src_opobj",
+     "files": [("operations/fm_metrics.py", {}, [])],
+     "extra_fields": {"FMMetrics": [("filter", Opt(List(STR)))]},
+     "objects": {"operations/fm_metrics.py": {"FMMetrics": "ALL_METRICS"}}},
     {"name": "json", "imports": " Gen.Src_fm",
      "files": [("transformations/json_writer.py", {},
                 ["to_json", "get_tree_info", "get_attributes_info", "get_constraints_info", "get_ctc_info"])]},
